@@ -180,8 +180,15 @@ def c02(seed, tier, broken):
             g = _Graph(list(g._edges), vs)
             desc = dict(desc, vertices=[dict(v, vals=np.asarray(x.pose).tolist()) for v, x in zip(desc["vertices"], vs)], reused_edge_objects=True)
         total = 0.0
+        import copy as _copy
+
+        byid = {v.id: v for v in g._vertices}
         for ei, e in enumerate(g._edges):
-            spec = S.edge_error(e)
+            # the documented model is evaluated at the estimates of THIS graph's vertices (looked up by the ids the edge names),
+            # not at whatever objects the edge happens to hold
+            es = _copy.copy(e)
+            es.vertices = [byid[i] for i in e.vertex_ids]
+            spec = S.edge_error(es)
             err = np.asarray(e.calc_error(), dtype=np.float64)
             if spec is not None:
                 ev += 1
